@@ -68,7 +68,11 @@ CHECKS.update({
         text="rebalance_eq: for every list of valid/malformed rows and every batch size >= 1, rebalance is the row-wise map (one row per "
         "input row, in order, each reporting its own input; malformed rows in place, unsolved, with an issue); DataLoader slicing "
         "modelled incl. the trailing empty batch (chunks_flatten). Real code exercised with every malformed kind at every position as "
-        "list / dict / CSV through the CLI entry point with pass-through columns.",
+        "list / dict / caller-chosen column names / CSV and JSON datasets (incl. ragged CSV records), ordered pairs of rejected kinds and "
+        "mixed lists. The copy loop of the command-line entry point is modelled (Cli.passThrough): C05_cli_passthrough / "
+        "C05_cli_other_columns_untouched (record i of the output carries the pass-through values of input record i whatever the "
+        "pipeline did to a column of the same name); tied to the real impute run (rows handed to / returned by rebalance and the CSV "
+        "written, with pass-through columns named like the pipeline's working columns).",
         note=ROWNOTE + "exceptions inside a pipeline stage (which would discard a batch) are outside the model and show up as a "
         "correspondence break.",
         technique="Lean 4 proof (list algebra of batching) + exhaustive small-scope differential runs",
@@ -125,8 +129,10 @@ CHECKS.update({
         text="rebalance_eq + C06 theorems: the result row of a reaction is runIn of that row alone for any surrounding rows, position "
         "and batch size; permuting inputs permutes outputs; statistics of ANY partition into batches sum to the unbatched statistics "
         "and are order independent. Worker counts do not occur in the model; the real id/index plumbing is tied by tracing the same "
-        "reactions alone, in one batch and under seeded permutations x batch sizes x worker counts 1..16 and comparing every row and "
-        "the stats dict.",
+        "reactions alone, in one batch and under seeded permutations x batch sizes x worker counts 1..16, with one worker in both "
+        "orders, with a rejected row alone in the first batch, as the second and third call on one long-lived object, under "
+        "caller-chosen column names, and (rows that never reach the MCS stage) under a fast-running clock, comparing every row and the "
+        "stats dict (C06_stats_dict_batch_size_independent at dictionary level).",
         note=ROWNOTE + "load-dependent MCS timeouts are oracle non-determinism (theorems hold for every oracle).",
         technique="Lean 4 proof (list/statistics algebra) + differential layout runs with stage-by-stage correspondence",
         ref="§5 C06"),
@@ -143,7 +149,8 @@ CHECKS.update({
         text="Threshold occurs only in the last stage (C13_threshold_only_in_last_stage): confidence independent of t, MCS rows solved iff "
         "confidence >= t (exact comparison), demoted rows flagged with an issue, all other rows identical for every t, monotone. "
         "Confidences/thresholds enter the model as exact binary fractions; runs under {0,0.5,1,c-0.001,c,c+0.001} are traced and "
-        "compared.",
+        "compared, each with a fresh object, on one long-lived object whose threshold attribute is changed between calls, and under "
+        "caller-chosen column names.",
         note=ROWNOTE + "float32-vs-float comparison is exact comparison of dyadic rationals (NumPy 1.26 compares in float64).",
         technique="Lean 4 proof (structural independence, case analysis) + differential threshold runs",
         ref="§5 C13"),
@@ -185,7 +192,10 @@ CHECKS.update({
         "cut-merge round trip (connectivity unconditionally; exact under hOK), merge leaves no boundary, expansion terminates and keeps "
         "the compound (under the decide +kernel table obligation noSwapOnExpansion), reported rules explain the heavy atoms, carbon "
         "conserved; rule tables regenerated from the three JSON files. Real merge on RDKit-cut fragments compared with the model and "
-        "against RDKit (sanitises, no boundary, counts, canonical SMILES round trip unless a restriction rule fired).",
+        "against RDKit (sanitises, no boundary, counts, canonical SMILES round trip unless a DOCUMENTED restriction fired: the refused "
+        "symbol pairs are pinned in Properties/C09.lean and decided against the regenerated table, C09_table_restrictions_documented); "
+        "cores with 2-3 open points (also on one atom) completed in every boundary order and compared with their points one at a time; "
+        "isotope-labelled molecules; completions next to identical spectators.",
         note=TB + "rule applicability (functional-group / pattern tests), ReplaceAction, SanitizeMol are oracle answers recorded from the "
         "real run with two monitored laws; valence/sanitisation is RDKit's.",
         technique="Lean 4 proofs over graph/merge model + decide +kernel table obligations + differential correspondence",
